@@ -235,6 +235,44 @@ def work(job):
     return out
 
 
+def failure_class(sql, dialect, strict, prepared, small, ctxs):
+    """name of the (decidable) class a minimal failing rewrite set falls in, or None.  Every class is a statement about the
+    input pair only; none consults the Lean model."""
+    cl = prepared[2]
+    variant = cl.apply(small)
+    gaps_only = all(c["rewrite"] == "gap" for c in ctxs)
+    if gaps_only and all(c["before_parent"] in ("table_reference", "object_reference") and
+                         c["after_parent"] in ("table_reference", "object_reference") for c in ctxs):
+        return "gap-inside-qualified-table-name"
+    if gaps_only and all(c["before_parent"] == "wildcard_identifier" and c["after_parent"] == "wildcard_identifier" for c in ctxs):
+        return "gap-inside-qualified-wildcard"
+    if R.shape_of(variant, dialect) != cl.shape:
+        # the dialect's parser builds a different tree for the variant (third party)
+        if gaps_only and all(c["before"] == "." or c["after"] == "." for c in ctxs):
+            return "parser-reads-gap-at-dot-differently"
+        return "parser-builds-different-tree"
+    mirrored = cl.mirror(small)
+    if mirrored != [list(r) for r in small] and pair_fails(sql, dialect, mirrored, strict, prepared) is None:
+        # the same rewrite applied to every occurrence of the repeated query text keeps the result
+        return "rewrite-inside-one-of-several-identical-query-texts"
+    def in_scalar_subquery(path):
+        try:
+            i = path.index("select_clause_element")
+        except ValueError:
+            return False
+        rest = path[i + 1:]
+        return "bracketed" in rest and any(t in rest[rest.index("bracketed"):] for t in ("select_statement", "set_expression"))
+    toks = []
+    for r in small:
+        if r[0] == "gap":
+            toks += [r[1] - 1, r[1]]
+        elif r[0] in ("case", "quote"):
+            toks.append(r[1])
+    if toks and all(in_scalar_subquery(cl.parents[t]) for t in toks):
+        return "rewrite-inside-scalar-subquery-of-select-item"
+    return None
+
+
 # ------------------------------------------------------------------------------------------------ inputs
 def has_unaliased_expr(stmt):
     """some select item (at any level) is an un-aliased expression other than a column reference or star"""
@@ -319,7 +357,8 @@ def build_inputs(chk, drv):
         a = au if up else al
         ds = ["sparksql", "hive", "databricks"] if name.startswith("spark-") else list(base_d)
         inputs.append({"name": name, "sql": a["sql"][0], "dialects": ds, "strict": not has_unaliased_expr(s), "ast": s,
-                       "model": sqlcheck.model_tables(a), "origin": "gensql" + ("/upper" if up else "")})
+                       "model": sqlcheck.model_tables(a), "spec": sqlcheck.spec_tables(a), "deviations": a["spec"][0]["deviations"],
+                       "origin": "gensql" + ("/upper" if up else "")})
     for name, sql, ds in TEMPLATES:
         inputs.append({"name": "tmpl/" + name, "sql": sql, "dialects": ds or (list(base_d) if thorough else QUICK_DIALECTS),
                        "strict": False, "ast": None, "model": None, "origin": "template"})
@@ -370,21 +409,10 @@ def build_jobs(chk, inputs):
 
 
 # ------------------------------------------------------------------------------------------------ failures
-def finding_for(chk, ctxs, dialect):
-    """a minimal failing rewrite set belongs to a listed finding when every rewrite of it falls in the finding's class"""
+def finding_for(chk, cls_name):
+    """a minimal failing rewrite set belongs to a listed finding when it falls in the finding's class"""
     for e in chk.findings:
-        if e.get("status") != "finding":
-            continue
-        c = e.get("class", {})
-        if c.get("dialects") and dialect not in c["dialects"]:
-            continue
-        ok = bool(ctxs)
-        for x in ctxs:
-            if x.get("rewrite") != c.get("rewrite"):
-                ok = False
-            elif c.get("rewrite") == "gap" and not (x.get("before_parent") in c.get("parents", []) and x.get("after_parent") in c.get("parents", [])):
-                ok = False
-        if ok:
+        if e.get("status") == "finding" and cls_name is not None and e.get("class") == cls_name:
             return e["id"]
     return None
 
@@ -436,13 +464,14 @@ def report_failure(chk, drv, inp, dialect, rewrites, seen_classes):
             ast, sql, small = r
             prepared = prepare(sql, dialect)
             ctxs = [prepared[2].context(x) for x in small]
-    fid = finding_for(chk, ctxs or [], dialect)
     cl = prepared[2]
     variant = cl.apply(small)
     base = run_struct(sql, dialect)
     var = run_struct(variant, dialect)
     strict = (not has_unaliased_expr(ast)) if ast is not None else inp["strict"]
     what = differs(canon(base, cl.ident_names(), strict), canon(var, cl.ident_names(small), strict))
+    cls_name = failure_class(sql, dialect, strict, prepared, small, ctxs or [])
+    fid = finding_for(chk, cls_name)
     key = canon_json([[{k: v for k, v in c.items() if k not in ("before", "after", "token")} for c in (ctxs or [])], what])
     if fid:
         chk.known(fid)
@@ -451,9 +480,10 @@ def report_failure(chk, drv, inp, dialect, rewrites, seen_classes):
         return
     seen_classes.add(key)
     chk.violation(
-        f"a token-level rewrite the property allows changes the reported lineage ({what}) under dialect {dialect}",
+        f"a token-level rewrite the property allows changes the reported lineage ({what}) under dialect {dialect}"
+        + (f" [class {cls_name}]" if cls_name else ""),
         {"kind": "c07-pair", "sql": sql, "dialect": dialect, "rewrites": small, "strict": strict, "variant": variant,
-         "context": ctxs, "original_result": canon(base, cl.ident_names(), strict),
+         "context": ctxs, "class": cls_name, "original_result": canon(base, cl.ident_names(), strict),
          "variant_result": canon(var, cl.ident_names(small), strict), "ast": ast, "origin": inp["origin"], "name": inp["name"]})
 
 
@@ -464,16 +494,29 @@ def seg_json(seg, noise=None, rng=None, depth=0):
             "m": bool(seg.is_meta), "k": [seg_json(s) for s in seg.segments]}
 
 
+NOISY_TSQL = [
+    "select x from s . t", "select x from s. t", "select x from s/*c;*/.t", "insert into s . t select * from a. b x join c -- c;\n . d . e y on x.i = y.i",
+    "select a into s1.\ttgt from [s2] . [src] x", "select x from s.t",
+]
+
+
 def direct_segments(chk, drv, inputs):
-    """`Segments.listChildSegments` (both values of check_bracketed) vs `utils.list_child_segments` on every node of real trees"""
+    """`Segments.listChildSegments` (both values of check_bracketed) vs `utils.list_child_segments`, `isNegligible` vs
+    `is_negligible` on every child, `tableParts` vs `SqlFluffTable.of` — on the nodes of real sqlfluff trees"""
     from sqlfluff.core import Linter
     from sqllineage.core.parser.sqlfluff import utils as U
+    from sqllineage.core.parser.sqlfluff.models import SqlFluffTable
+    from sqllineage.utils.helpers import escape_identifier_name as esc
     reqs, expect = [], []
     n_trees = 0
-    for inp in inputs:
-        d = inp["dialects"][0]
+    todo = [(inp["sql"], inp["dialects"][0]) for inp in inputs] + [(q, "tsql") for q in NOISY_TSQL]
+    todo = todo[-len(NOISY_TSQL):] + todo[:-len(NOISY_TSQL)]
+    limit = 6000 if chk.tier == "thorough" else 1500
+    for sql, d in todo:
+        if len(reqs) > limit:
+            break
         try:
-            p = Linter(dialect=d).parse_string(inp["sql"])
+            p = Linter(dialect=d).parse_string(sql)
         except Exception:  # noqa
             continue
         if p.tree is None or p.violations:
@@ -485,32 +528,44 @@ def direct_segments(chk, drv, inputs):
             if not seg.segments:
                 continue
             stack.extend(seg.segments)
-            if seg.type not in ("bracketed", "select_clause_element", "from_expression_element", "table_reference", "column_reference",
-                                "alias_expression", "insert_statement", "merge_statement", "select_statement", "expression",
-                                "create_table_statement", "set_expression", "common_table_expression", "with_compound_statement",
-                                "update_statement", "function", "case_expression", "when_clause"):
-                continue
+            table = None
+            if seg.type in ("table_reference", "object_reference"):
+                try:
+                    table = str(SqlFluffTable.of(seg))
+                except Exception:  # noqa
+                    table = None
             for cb in (True, False):
                 try:
                     res = U.list_child_segments(seg, cb)
-                except Exception as e:  # noqa
+                except Exception:  # noqa
                     continue
                 reqs.append({"cmd": "seglist", "seg": seg_json(seg), "check_bracketed": cb})
-                expect.append([[s.type, s.raw] for s in res])
-        if len(reqs) > (6000 if chk.tier == "thorough" else 1500):
-            break
+                expect.append(([[s.type, s.raw] for s in res], [bool(U.is_negligible(s)) for s in seg.segments], table if cb else None))
     bad = 0
+    tables = pre_repair = 0
     if reqs:
         ans = drv.ask(reqs)
-        for rq, a, e in zip(reqs, ans, expect):
+        for rq, a, (e, neg, table) in zip(reqs, ans, expect):
             chk.count("seg:" + canon_json(rq), bool(e))
             if "error" in a:
                 raise Infra("seglist: " + a["error"])
-            if a["out"] != e:
+            ok = a["out"] == e and a["negligible"] == neg
+            if table is not None:
+                tables += 1
+                def printed(parts):
+                    sch = "".join(esc(x) for x in parts[0]) if parts[0] else "<default>"
+                    return sch + "." + esc(parts[1])
+                if table != printed(a["table_parts"]):
+                    if table == printed(a["table_parts_raw"]):
+                        pre_repair += 1       # the code before the repair D30 (the model carries both)
+                    else:
+                        ok = False
+            if not ok:
                 bad += 1
                 if len(chk.stale) < 10:
-                    chk.stale.append({"kind": "segments", "request": rq, "impl": e, "model": a["out"]})
-    return {"trees": n_trees, "nodes_compared": len(reqs), "disagreements": bad}
+                    chk.stale.append({"kind": "segments", "request": rq, "impl": [e, neg, table], "model": a})
+    return {"trees": n_trees, "nodes_compared": len(reqs), "table_references": tables, "table_names_as_before_repair_D30": pre_repair,
+            "disagreements": bad}
 
 
 def direct_escape(chk, drv):
@@ -536,20 +591,24 @@ def direct_escape(chk, drv):
 
 
 def direct_split(chk, drv):
-    """the `;`-piece filter vs `helpers.split`: scripts assembled from statements, semicolons, blanks and comments"""
+    """`Segments.splitModel` (sqlparse's level-0 statement splitter + the piece filter of `helpers.split`) vs the real
+    `helpers.split`: every script of up to n tokens over statements, semicolons, blanks, line breaks and comments"""
     import itertools
     from sqllineage.utils.helpers import split
-    parts = ["select 1", ";", " ", "\n", "/*c;*/", "-- c;\n", "insert into t select a from s"]
+    parts = [("code", "select 1"), ("semi", ";"), ("blank", " "), ("newline", "\n"), ("block_comment", "/*c;*/"),
+             ("line_comment", "-- c;\n"), ("code", "insert into t select a from s")]
     scripts = []
-    for n in range(1, 6 if chk.tier == "thorough" else 5):
+    for n in range(1, 7 if chk.tier == "thorough" else 6):
         scripts += [list(t) for t in itertools.product(range(len(parts)), repeat=n)]
-    reqs = [{"cmd": "splitkeep", "pieces": [parts[i] for i in s]} for s in scripts]
+    # two statements must not be glued into one word
+    scripts = [s for s in scripts if not any(parts[a][0] == "code" and parts[b][0] == "code" for a, b in zip(s, s[1:]))]
+    reqs = [{"cmd": "splitkeep", "tokens": [list(parts[i]) for i in s]} for s in scripts]
     ans = drv.ask(reqs)
     bad = 0
     for s, a in zip(scripts, ans):
         if "error" in a:
             raise Infra("splitkeep: " + a["error"])
-        text = "".join(parts[i] for i in s)
+        text = "".join(parts[i][1] for i in s)
         impl = [x.strip() for x in split(text.strip())]
         model = [x.strip() for x in a["out"]]
         chk.count("split:" + text, len(impl) > 0)
@@ -604,8 +663,14 @@ def run(chk):
         if inp["model"] is not None and r["base_tables"] is not None and "error" not in inp["model"]:
             if r["base_tables"] == inp["model"]:
                 st.c["impl(original)=model"] += 1
+            elif inp["deviations"] or r["base_tables"] == inp["spec"]:
+                # outside the fragment the walk model tracks known deviations that may since have been repaired (C01's business)
+                st.c["impl(original)!=model (outside Frag01 or impl=spec: left to C01)"] += 1
             else:
                 st.c["impl(original)!=model"] += 1
+                if len(chk.stale) < 10:
+                    chk.stale.append({"kind": "sql-tables", "sql": inp["sql"], "dialect": d, "impl": r["base_tables"],
+                                      "model": inp["model"], "spec": inp["spec"]})
         if r["n_fail"]:
             st.c["pairs-failing"] += r["n_fail"]
             for f in r["failures"]:
@@ -618,15 +683,8 @@ def run(chk):
         report_failure(chk, drv, inp, d, rw, seen_classes)
         if len(chk.violations) >= 5:
             break
-    # the model's single answer: a variant cannot differ from the original without the differential noticing, so the
-    # comparison is made on the original rendering; a disagreement there is a stale correspondence of the walk model (C01)
-    if st.c["impl(original)!=model"]:
-        for job, r in zip(jobs, results):
-            inp = inputs[job["input"]]
-            if inp["model"] is not None and r["status"] == "ok" and "error" not in inp["model"] and r["base_tables"] != inp["model"]:
-                if len(chk.stale) < 10:
-                    chk.stale.append({"kind": "sql-tables", "sql": inp["sql"], "dialect": job["dialect"], "impl": r["base_tables"],
-                                      "model": inp["model"]})
+    # (the model's single answer: a variant cannot differ from the original without the differential noticing, so the model is
+    # compared on the original rendering only, above)
     seg = direct_segments(chk, drv, inputs)
     esc = direct_escape(chk, drv)
     spl = direct_split(chk, drv)
